@@ -2382,6 +2382,8 @@ class Interp:
                 return v[k]
             if isinstance(k, int) and not isinstance(k, bool):
                 raise PyRaise('IndexError', 'list index %d out of range for a list of %d' % (k, len(v)))
+            if isinstance(k, Arr) and k.ndim == 0 and k.mask is None and _is_boolean(k.poly) and len(v) == 2:
+                return merge_val(v[1], v[0], k.poly, e)          # seq[flag] for a flag decided by the data: the second item where it holds, the first where not
             return Unk('list index %r' % (k,), e)
         if isinstance(v, dict):
             k = self.expr(e.slice, env, mod)
